@@ -303,7 +303,11 @@ def run(ctx: common.Ctx):
   from dinosaur import shallow_water as sw
 
   ctx.lean('DinoProofs.Properties.C19', 'C19.txt',
-           extra_files=['DinoProofs/Lemmas/Tree.lean', 'Dino/Tree.lean'])
+           extra_files=['DinoProofs/Lemmas/Tree.lean', 'DinoProofs/Lemmas/TreeDict.lean',
+                        'DinoProofs/Lemmas/TreeFlat.lean', 'DinoProofs/Lemmas/TreeRound.lean',
+                        'DinoProofs/Lemmas/TreeEq.lean', 'DinoProofs/Lemmas/TreeReplace.lean',
+                        'DinoProofs/Lemmas/TreeArr.lean', 'DinoProofs/Lemmas/TreeMore.lean',
+                        'Dino/Tree.lean'])
 
   import time as _time
   _t0 = _time.time()
